@@ -18,7 +18,8 @@ A case is built from a generated module A (the C07 generator):
   wrongkind an INTEGER range or SIZE use site refers to a BOOLEAN / string / octet-string value (local or imported).
             ORACLE: resolve error (stage 2); never a model.
   negsize   a SIZE use site refers to a negative INTEGER value; the literal variant writes the negative number.
-            ORACLE: as subst (the literal variant is an error, so the referencing one has to be one as well).
+            ORACLE: as subst (the literal variant is an error, so the referencing one has to be one as well;
+            before repair fb434d2 of /repo the value was cast with `as usize` and wrapped).
 """
 import copy
 import itertools
@@ -202,8 +203,9 @@ class C12(Spec):
     coq_targets = ["Props/C12.vo"]
     prop_module = "Props.C12"
     theorems = ["C12_subst_bound_partial", "C12_subst_size_bound_partial", "C12_subst_default_partial", "C12_unresolved_is_error",
-                "C12_non_integer_is_error", "C12_refuted_reference_in_0_max_range_not_folded",
-                "C12_refuted_negative_value_reference_as_size_wraps", "C12_refuted_cyclic_import_diverges"]
+                "C12_non_integer_is_error", "C12_negative_size_is_error", "C12_fixed_negative_size_reference_is_error",
+                "C12_refuted_reference_in_0_max_range_not_folded", "C12_refuted_reference_in_size_0_max_extensible_accepted",
+                "C12_refuted_cyclic_import_diverges"]
     MODEL_OPS = {3302, 3304, 3312, 3314}
     builds = [("default", "dev"), ("default", "release")]
     level_text = ("A hand-written Gallina model of ResolveScope / MultiModuleResolver (local first, then the first import listing "
@@ -238,7 +240,9 @@ class C12(Spec):
         return out
 
     def gen(self, rng, tier):
-        n = 3000 if tier == "quick" else 80000
+        n = 1500 if tier == "quick" else 80000
+        max_cycles = 3 if tier == "quick" else 200      # every abort of the harness child costs the runner a restart
+        cycles = 0
         L = []
         tries = 0
         while len(L) < n and tries < 20 * n:
@@ -249,6 +253,10 @@ class C12(Spec):
             kind = "subst" if k < 0.7 else "dangling" if k < 0.85 else "wrongkind" if k < 0.95 else "negsize"
             c = build_case(rng, A, kind)
             if c is not None:
+                if '"import_cycle"' in bytes(int(x) for x in c.split()[2:2 + int(c.split()[1])]).decode():
+                    cycles += 1
+                    if cycles > max_cycles:
+                        continue
                 L.append(c)
         return L
 
@@ -295,7 +303,7 @@ class C12(Spec):
                 return [("negative_value_reference_as_size_wraps",
                          "a SIZE bound that refers to a negative INTEGER value resolves (value as usize wraps to 2^64-|v|) where the "
                          "literal is rejected (%s): %s" % (a_lit[:3], show))]
-            return None                 # both rejected (different error values name different things)
+            return None                 # both rejected (repair fb434d2; the error values name different things)
         if a_lit[:1] != [0]:
             if a_ref[:1] != [0]:
                 return None             # neither variant resolves: nothing to compare (a C07 matter)
@@ -321,7 +329,7 @@ class C12(Spec):
         a = line.split(None, 1)[0]
         o = out.split()
         if a == "3314":
-            return len(o) > 2 and o[1] == "0"
+            return len(o) > 3 and (o[1] == "0" or o[1:3] == ["1", "2"])
         return o[:2] == ["1", "2"]
 
 
